@@ -118,6 +118,10 @@ c.sendall(ccr(10))             # handler raises CancelledError
 time.sleep(1.0)
 c.sendall(ccr(11))             # handler would answer 2001
 answer = read_msg(c, 4)
+# (adapted after the repair: the request whose handler ended abnormally is answered 5012 by
+# the node now; the answer of interest is the one to the second request)
+if answer is not None and answer.header.hop_by_hop_identifier != 11 and answer.result_code == 5012:
+    answer = read_msg(c, 4)
 
 reader_alive = conn._read_thread.is_alive()
 print("handler calls:", MyApp.calls)
